@@ -133,6 +133,17 @@ func (e *Engine) intrinsic(name string, fn *ssa.Function, a []Value) Value {
 		return e.disjoint(a[0], a[1])
 	case "SameObject":
 		return e.ptrEq(e.unwrapIface(a[0]), e.unwrapIface(a[1]))
+	case "JSONDoc":
+		return e.jsonDocIntrinsic(a)
+	case "JSONKind":
+		return e.jsonKind(a[0])
+	case "Track":
+		e.watermark = e.nobj
+		e.tracking = true
+		e.writes = 0
+		return nil
+	case "Changed":
+		return e.writes > 0
 	case "JSONInput":
 		return &Rope{P: []Piece{{Opq: true, What: "json", Doc: &JDoc{Kind: "input", Input: &JInput{Tag: e.name(str(a[0])), BadAt: -1}}}}}
 	case "Unsupported":
